@@ -1143,7 +1143,29 @@ pub fn run_t1(profile: &T1Profile, tape: Tape, opts: &T1Opts) -> RunOut {
             )
         };
         let only_conns = unfinished.iter().all(|(n, _)| n.ends_with(":conn"));
-        let cause = if only_conns { format!("{}:", match (leak_cause(&mon, 0), leak_cause(&mon, 1)) { ("other", b) => b, (a, _) => a }) } else { String::new() };
+        // discriminators for listed findings: a guarded call-site marker seen in this run, or
+        // a state only that finding produces
+        let marker = match (leak_cause(&mon, 0), leak_cause(&mon, 1)) {
+            ("other", b) => b,
+            (a, _) => a,
+        };
+        let held_by_pending_open = {
+            let sh = shared.lock().unwrap();
+            (0..2).any(|side| {
+                sh.stats[side].as_ref().map(|st| st.snapshot()).map(|v| {
+                    v.conn_send_available <= 0 && v.streams.iter().any(|x| x.is_pending_open && x.send_available > 0) && v.streams.iter().any(|x| x.is_pending_send_capacity && !x.is_pending_open)
+                }).unwrap_or(false)
+            })
+        };
+        let cause = if marker != "other" {
+            format!("{}:", marker)
+        } else if held_by_pending_open {
+            "capacity-held-while-pending-open:".to_string()
+        } else if only_conns {
+            "other:".to_string()
+        } else {
+            String::new()
+        };
         violations.push(Violation::new(
             prop,
             "parked-at-quiescence",
@@ -1151,6 +1173,17 @@ pub fn run_t1(profile: &T1Profile, tape: Tape, opts: &T1Opts) -> RunOut {
             format!("quiescent with unfinished tasks {:?};{}{}", unfinished, stats_txt, net_txt),
             step,
         ));
+        // C19: every request handle and every stream handle of the client is gone (only the
+        // two connection futures are left) and the client connection has not closed itself
+        if only_conns && profile.cooperative && !fatal_cfg && unfinished.iter().any(|(n, _)| n == "c:conn") {
+            violations.push(Violation::new(
+                "C19",
+                "idle-client-connection-not-closed",
+                cause.clone(),
+                format!("every client handle has been dropped and the system is quiescent, but the client connection neither sent GOAWAY(NO_ERROR) nor completed;{}{}", stats_txt, net_txt),
+                step,
+            ));
+        }
     }
     let quiescent = matches!(outcome, StepOutcome::Quiescent);
     // acknowledgements can only be owed by an endpoint whose connection is still running
@@ -1226,6 +1259,13 @@ pub fn run_t1(profile: &T1Profile, tape: Tape, opts: &T1Opts) -> RunOut {
     }
     if clean && profile.cooperative {
         check_legal_resets(&hist, &mon, &mut violations, step);
+    }
+    {
+        // nothing but the peer's RST_STREAM can have failed a stream: no fatal fault, no
+        // error GOAWAY either way, no abrupt shutdown, no connection that failed
+        let no_conn_failure = hist.with(|h| h.abrupt.is_empty() && h.conn_results.iter().all(|r| !matches!(r, Some(Err(_)))))
+            && (0..2).all(|s| mon.ep[s].goaway_out.iter().all(|g| g.1 == 0) && mon.ep[s].goaway_in.iter().all(|g| g.1 == 0));
+        check_peer_resets(&hist, &mon, !fatal_cfg && no_conn_failure && !profile.inject, &mut violations, step);
     }
     // C15: GOAWAY last-stream-id covers every stream already handed to the application;
     // the peer's code and origin surface in the client's connection result; a graceful
@@ -1613,6 +1653,74 @@ fn check_capacity_probe(plan: &T1Plan, shared: &SharedRef, mon: &Monitor, out: &
 
 /// Legal traffic between two correct endpoints: a library-initiated RST_STREAM must be one
 /// of the refusals/cancellations the protocol and configuration explain.
+/// C17, second sentence: a reset coming from the peer surfaces on the stream's handles with
+/// the peer's exact code and origin. `strict` = nothing else can have failed the stream
+/// first (no fatal fault, no error GOAWAY, no abrupt shutdown in the run).
+fn check_peer_resets(hist: &Hist, mon: &Monitor, strict: bool, out: &mut Vec<Violation>, step: u64) {
+    let (errors, polls) = hist.with(|h| (h.errors.clone(), h.reset_polls.clone()));
+    let who = |s: u8| if s == 0 { "client" } else { "server" };
+    // what a handle reported as a remote reset must be what the peer put on the wire
+    for er in &errors {
+        if er.sid == 0 || !er.facts.is_reset || !er.facts.is_remote {
+            continue;
+        }
+        let w = mon.ep[er.side as usize].streams.get(&er.sid);
+        let ok = w.map(|w| w.rst_in && w.rst_in_code == er.facts.reason).unwrap_or(false);
+        if !ok && mon.ep[er.side as usize].events.is_empty() {
+            out.push(Violation::new("C17", "remote-reset-reported-differs-from-wire", er.handle, format!("{} {} on stream {} reported {:?} but the RST_STREAM it processed from the peer is {:?}", who(er.side), er.handle, er.sid, er.facts, w.map(|w| (w.rst_in, w.rst_in_code))), step));
+        }
+    }
+    for (side, sid, r, _) in &polls {
+        if let Ok(code) = r {
+            let w = mon.ep[*side as usize].streams.get(sid);
+            let by_peer = w.map(|w| w.rst_in && w.rst_in_code == Some(*code)).unwrap_or(false);
+            let by_self = w.map(|w| w.rst_out > 0 && w.rst_out_code == Some(*code)).unwrap_or(false) || hist.with(|h| h.resets.iter().any(|x| x.side == *side && x.sid == *sid));
+            // (a stream that ended cleanly resolves a cooperative wait with NO_ERROR)
+            // (a connection-level error surfaces through poll_reset with the GOAWAY's code)
+            let by_goaway = mon.ep[*side as usize].goaway_in.iter().any(|g| g.1 == *code) || mon.ep[*side as usize].goaway_out.iter().any(|g| g.1 == *code);
+            if !by_peer && !by_self && !by_goaway && *code != 0 && mon.ep[*side as usize].events.is_empty() {
+                out.push(Violation::new("C17", "poll-reset-code-differs-from-wire", "", format!("{} poll_reset on stream {} returned code {} but no RST_STREAM with that code was processed or sent on it ({:?})", who(*side), sid, code, w.map(|w| (w.rst_in_code, w.rst_out_code))), step));
+            }
+        }
+    }
+    if !strict {
+        return;
+    }
+    // a peer reset processed while the receiving half was still open must be what the
+    // receiving handles report afterwards (never a clean end, never another error)
+    let recv_handles = ["poll_data", "poll_trailers", "response", "poll_informational", "pushed_response"];
+    for er in &errors {
+        if er.sid == 0 || !recv_handles.contains(&er.handle) {
+            continue;
+        }
+        let w = match mon.ep[er.side as usize].streams.get(&er.sid) {
+            Some(w) => w,
+            None => continue,
+        };
+        let t = match w.rst_in_step {
+            Some(t) => t,
+            None => continue,
+        };
+        if t < er.step && w.rst_out == 0 && !w.end_in_before_rst {
+            let same = er.facts.is_reset && er.facts.is_remote && er.facts.reason == w.rst_in_code;
+            if !same {
+                out.push(Violation::new("C17", "peer-reset-not-surfaced", er.handle, format!("{} processed RST_STREAM({:?}) from the peer on stream {} at step {}, but {} at step {} reported {:?}", who(er.side), w.rst_in_code, er.sid, t, er.handle, er.step, er.facts), step));
+            }
+        }
+    }
+    for (side, sid, r, pstep) in &polls {
+        let w = match mon.ep[*side as usize].streams.get(sid) {
+            Some(w) => w,
+            None => continue,
+        };
+        if let (Some(t), Err(f)) = (w.rst_in_step, r) {
+            if t < *pstep && w.rst_out == 0 {
+                out.push(Violation::new("C17", "peer-reset-not-surfaced", "poll_reset", format!("{} processed RST_STREAM({:?}) from the peer on stream {} at step {}, but poll_reset at step {} failed with {:?}", who(*side), w.rst_in_code, sid, t, pstep, f), step));
+            }
+        }
+    }
+}
+
 fn check_legal_resets(hist: &Hist, mon: &Monitor, out: &mut Vec<Violation>, step: u64) {
     use crate::wire::{CANCEL, NO_ERROR, REFUSED_STREAM, STREAM_CLOSED};
     let app: Vec<(u8, u32, u32)> = hist.with(|h| h.resets.iter().map(|r| (r.side, r.sid, r.code)).collect());
